@@ -147,3 +147,41 @@ func VerifH03bBasicAuthGate() {
 	verifrt.Assert(next.ran <= 1, "next-runs-once")
 	verifrt.Observe("gate", next.ran, status)
 }
+
+// VerifH03bTwoRules: an exclude of one rule never opens what another rule protects.
+func VerifH03bTwoRules() {
+	n := verifrt.IntRange("taillen", 0, 2)
+	tail := verifrt.String("tail", n)
+	for i := 0; i < n; i++ {
+		verifrt.Assume(zzIn(tail[i], "/.ab"))
+	}
+	p := "/a/b/" + tail
+	sensitive := verifrt.Bool("casesensitive")
+	httpserver.CaseSensitivePath = sensitive
+	r1 := Rule{Username: "u", Password: func(pw string) bool { return pw == "pw" }, Resources: []string{"/a"}, Exclude: []string{"/a/b"}}
+	r2 := Rule{Username: "v", Password: func(pw string) bool { return pw == "pw2" }, Resources: []string{"/a/b/a"}}
+	rules := []Rule{r1, r2}
+	if verifrt.Bool("swap") {
+		rules = []Rule{r2, r1}
+	}
+	next := &zzNext{}
+	a := BasicAuth{Next: next, Rules: rules}
+	r := &http.Request{Method: "GET", URL: &url.URL{Path: p}, Header: http.Header{}, Host: "h", RemoteAddr: "1.2.3.4:5", Proto: "HTTP/1.1", RequestURI: p}
+	creds := verifrt.Choose("creds", 3) // 0 absent, 1 first rule's, 2 second rule's
+	switch creds {
+	case 1:
+		r.SetBasicAuth("u", "pw")
+	case 2:
+		r.SetBasicAuth("v", "pw2")
+	}
+	w := &zzWriter{}
+	a.ServeHTTP(w, r)
+	R := path.Clean("/" + p)
+	if zzUnder(R, "/a/b/a", sensitive) && creds != 2 {
+		verifrt.Assert(next.ran == 0, "second-rule-still-protects-inside-first-rules-exclude")
+	}
+	if creds == 2 && zzUnder(R, "/a/b/a", sensitive) {
+		verifrt.Assert(next.ran == 1, "served-with-the-right-credentials")
+	}
+	verifrt.Observe("two", next.ran)
+}
